@@ -18,5 +18,5 @@ ASSUMPTIONS = ["2D perimeter/circularity only with isotropic spacing (skimage ra
 REQUIRED_CLASSES = {t: ["mask_change:grown", "mask_change:shrunk", "mask_change:new", "bulk_differential",
                         "cfg:scale=anisotropic", "cfg:3D", "cfg:opt=perimeter", "cfg:opt=ellipse_axis_radii"]
                     for t in ("quick", "thorough")}
-run_shard, replay, minimise = make(C08Oracle, quick=(320, 25), thorough=(3200, 40), profile="paint",
+run_shard, replay, minimise = make(C08Oracle, quick=(1600, 25), thorough=(3200, 40), profile="paint",
                                    cfg_kwargs={"seg": True})
